@@ -410,17 +410,7 @@ def _normalize_index(i: int, dim_size: int) -> int:
 
 
 def _normalize_slice(s: slice, dim_size: int) -> slice:
-    start = s.start
-    if start is None:
-        start = 0
-    elif start < 0:
-        start = dim_size + start
-    stop = s.stop
-    if stop is None:
-        stop = dim_size
-    elif stop < 0:
-        stop = dim_size + stop
-    step = s.step
-    if step is None:
-        step = 1
+    # Same semantics as indexing a sequence of length `dim_size`: negative values count from the end
+    # and out-of-range values are clamped (callers add offsets to start/stop, so they must be in range)
+    start, stop, step = s.indices(dim_size)
     return slice(start, stop, step)
